@@ -44,6 +44,12 @@ def _cfg(rng, scenario):
 
 def gen(rng, scenario, tier):
     cfg = _cfg(rng, scenario)
+    if scenario == "accuracy" and rng.random() < 0.35:
+        # falsy-but-legal settings (twin comparison only): no minimum window / sub-window size
+        cfg["window_size_thresh"] = 0
+        cfg["subwindow_size_thresh"] = rng.choice([0, 0, 1])
+        cfg["new_sample_thresh"] = rng.choice([1, 2])
+        cfg["max_buckets"] = rng.randint(2, 5)
     n = rng.randint(50, 450)
     if scenario == "accuracy":
         ev, drifts = workload.outcomes(rng, n)
